@@ -99,10 +99,15 @@ def verify_function(world, qual, timeout_ms=10000):
         ex.prove('cover/requires', st.pc, z3.BoolVal(False), kind='cover', detail='the precondition is satisfiable')
         bad = resolution_family_ok(world, finfo, ctx)
         ex.prove('resolution-family', [], z3.BoolVal(not bad), detail='self.<method> resolves identically in all shipped classes: %s' % (bad[:3],))
+        if contract.at_yield and not finfo.is_generator:
+            ex.prove('yields-exactly-once', [], z3.BoolVal(False), detail='the contract is that of a two-phase generator (the container must exist before its children are constructed); the function has no yield')
         run = Runner(ex)
         outs = run.block(finfo.node.body, st.fork())
         outs = run.drain() + outs
         res.paths = len(outs)
+        for k, (anchor, _) in enumerate(getattr(contract, 'cuts', [])):
+            if k not in getattr(ex, 'cuts_seen', set()):
+                ex.prove('cut/%d/anchor' % k, [], z3.BoolVal(False), detail='no statement starts with %r any more: the contract no longer fits the code' % anchor)
         check_exits(ex, contract, finfo, outs)
     except OutOfSubset as e:
         res.out_of_subset = str(e)
@@ -184,9 +189,21 @@ def check_exits(ex, contract, finfo, outs):
             val = o.val if o.kind == 'return' and o.val is not None else Val(NONE, 'none')
             if contract.result:
                 ex.prove('post/result-type', o.st.pc, ex.type_pred(contract.result, val.t, o.st), detail='result is %s' % contract.result)
+            old_state = ex.entry
+            if contract.at_yield and not finfo.is_generator:
+                ex.prove('yields-exactly-once', o.st.pc, z3.BoolVal(False), detail='the contract is that of a two-phase generator, the function returns without yielding')
+                continue
+            if finfo.is_generator:
+                # exhaustion of a two-phase generator: exactly one value was handed out; postconditions speak about the second phase
+                # (old = the state at resumption) and about `yielded`
+                ex.prove('yields-exactly-once', o.st.pc, z3.BoolVal('$yielded' in o.st.env), detail='every path to exhaustion passes the yield')
+                if '$yielded' not in o.st.env:
+                    continue
+                o.st.env['yielded'] = o.st.env['$yielded']
+                old_state = ex.resume_state
             for j, cl in enumerate(contract.ensures):
                 label = contract.labels.get(j, str(j))
-                g = ex.spec(cl, o.st, old=ex.entry, result=val)
+                g = ex.spec(cl, o.st, old=old_state, result=val)
                 ex.prove('post/%s' % label, o.st.pc, g, detail=cl if isinstance(cl, str) else 'callable')
             check_frame(ex, contract, o.st)
         elif o.kind == 'raise':
@@ -211,7 +228,7 @@ def check_exits(ex, contract, finfo, outs):
     return n_normal
 
 
-def check_frame(ex, contract, st):
+def check_frame(ex, contract, st, tag='frame/'):
     """nothing outside `modifies` changed: for every heap array that differs from the entry array, at a Skolem object"""
     entry = ex.entry
     view = State(); view.env = entry.env; view.heap = dict(entry.heap); view.pc = list(entry.pc); view.alloc = entry.alloc
@@ -228,7 +245,7 @@ def check_frame(ex, contract, st):
         allowed = [r for k, r in pts if k == key]
         hyp = [o < entry.alloc] + [o != r for r in allowed]
         # static objects (negative refs) are in scope of the frame too
-        ex.prove('frame/%s' % key.replace('f:', ''), list(st.pc) + hyp, z3.Select(arr, o) == z3.Select(a0, o),
+        ex.prove('%s%s' % (tag, key.replace('f:', '')), list(st.pc) + hyp, z3.Select(arr, o) == z3.Select(a0, o),
                  detail='only %s may be modified' % (contract.modifies,))
 
 
